@@ -80,6 +80,19 @@ def call(what: str, fn: Callable, *args, **kwargs):
         raise Violation(f"{what} raised {type(e).__name__}: {str(e)[:300]}{where}") from e
 
 
+def as_violation(e: BaseException):
+    """An exception that escaped from a check without passing through ``call``: if a frame of its traceback lies in
+    the cooler package under test, the library raised on an input the check treats as valid - a violation, not a
+    harness error.  Returns a Violation or None (exception raised by the harness itself, by Hypothesis, ...)."""
+    if isinstance(e, Violation) or not isinstance(e, Exception) or type(e).__module__.startswith("hypothesis"):
+        return None
+    for fr in reversed(traceback.extract_tb(e.__traceback__)):
+        fn = fr.filename.replace("\\", "/")
+        if "/cooler/" in fn and "/vfw/" not in fn:
+            return Violation(f"the library raised {type(e).__name__}: {str(e)[:300]} at {os.path.basename(fn)}:{fr.lineno}")
+    return None
+
+
 def must_raise(what: str, fn: Callable, *args, **kwargs) -> Exception:
     """Call code under test that is required to refuse its input."""
     try:
@@ -293,6 +306,12 @@ def run_given(ctx: Ctx, part: str, strategy, check_fn: Callable[[dict, Ctx], Non
             except Violation as e:
                 ctx.note_failure(case, str(e))
                 raise
+            except Exception as e:  # noqa: BLE001
+                v = as_violation(e)
+                if v is None:
+                    raise
+                ctx.note_failure(case, str(v))
+                raise v from e
 
         wrapped = hypothesis.seed(derive_seed(ctx, part, b))(
             _settings(n)(given(strategy)(test))
